@@ -127,8 +127,8 @@ def lean_build(prop: str, tier: str, info: dict):
             # whether the model still describes the code.
             gen_dir, pin_dir = LEAN / "PyttbModel" / "Generated", ROOT / "harness" / "translate" / "pinned"
             differing = [f.name for f in sorted(pin_dir.glob("*.lean"))
-                         if (gen_dir / f.name).exists() and (gen_dir / f.name).read_text() != f.read_text()
-                         and (gen_dir / f.name) in import_closure(prop)]
+                         if (gen_dir / f.name).exists() and (gen_dir / f.name).read_text() != f.read_text()]
+            mine = [n for n in differing if (gen_dir / n) in import_closure(prop)]  # the others only matter to the shared driver
             if differing:
                 read = {n: (gen_dir / n).read_text() for n in differing}
                 for n in differing:
@@ -137,8 +137,11 @@ def lean_build(prop: str, tier: str, info: dict):
                 if p2.returncode == 0:
                     errs = re.findall(r"error: ([^\n]*)", p.stdout + p.stderr)
                     info["generated_as_read"] = read
-                    broken.append("anchor lost: the definitions read from the source (" + ", ".join(differing) + ") differ from the pinned "
-                                  "ones and the theorems do not close for them (" + "; ".join(errs[:2])[:200] + "); pinned definitions used")
+                    if mine:
+                        broken.append("anchor lost: the definitions read from the source (" + ", ".join(mine) + ") differ from the pinned "
+                                      "ones and the theorems do not close for them (" + "; ".join(errs[:2])[:200] + "); pinned definitions used")
+                    else:
+                        info["other_generated_reverted"] = differing
                     p = p2
                 else:
                     for n, t in read.items():
